@@ -919,6 +919,18 @@ func drvVec(args []string) error {
 		e.hM = 2
 	}
 	e.buildPool()
+	if e.kind == "hnsw" {
+		// levels from the driver's seeded generator (same geometric law as the index) so that a run is reproducible
+		lrng := rand.New(rand.NewSource(*cf.seed + 4242))
+		comet.VerifLevelFunc = func() (int, bool) {
+			l := 0
+			for lrng.Float64() < 1/float64(e.hM) && l < 8 {
+				l++
+			}
+			return l, true
+		}
+		defer func() { comet.VerifLevelFunc = nil }()
+	}
 	if *minTrain {
 		switch e.kind {
 		case "ivf":
